@@ -146,9 +146,10 @@ func bucket(n int) int {
 
 var c14Edges = []uint64{0, 1, 2, 62, 63, 64, 65, 127, 128, 447, 448, 449, 450, 511, 512, 513, 575, 576, 959, 960, 961, 1023, 1024, 1 << 32, 1<<32 + 448, 1 << 62, 1<<62 + 449}
 
-func c14Gen(t *rapid.T) c14Case {
+// c14OpGen draws one probe of a history (shared by the filter, session and server units).
+func c14OpGen() *rapid.Generator[c14Op] {
 	deltas := []uint64{0, 1, 2, 3, 63, 64, 65, 446, 447, 448, 449, 450, 511, 512, 513, 1000, 64*5 - 1, 64*5 + 1, 64*8 - 1, 64*8 + 1, 64 * 9, 1 << 20, 1 << 40}
-	opGen := rapid.Custom(func(t *rapid.T) c14Op {
+	return rapid.Custom(func(t *rapid.T) c14Op {
 		k := rapid.IntRange(0, 5).Draw(t, "kind")
 		var d uint64
 		switch k {
@@ -172,11 +173,14 @@ func c14Gen(t *rapid.T) c14Case {
 		}
 		return c14Op{Kind: k, D: d, Mark: rapid.IntRange(0, 9).Draw(t, "mark") != 0}
 	})
+}
+
+func c14Gen(t *rapid.T) c14Case {
 	n := 3000
 	if rapid.IntRange(0, 3).Draw(t, "short") != 0 {
 		n = 200
 	}
-	return c14Case{Ops: rapid.SliceOfN(opGen, 1, n).Draw(t, "ops")}
+	return c14Case{Ops: rapid.SliceOfN(c14OpGen(), 1, n).Draw(t, "ops")}
 }
 
 func TestVerifC14Random(t *testing.T) {
